@@ -55,6 +55,8 @@ pub fn plan(prop: &str, tier: Tier) -> Option<(&'static str, Vec<Job>)> {
         "C19" => vec![
             Job::new("partlog", if q { 1000 } else { 24_000 }).caches(&["off", "big"]),
             Job::new("crypto", if q { 20_000 } else { 600_000 }),
+            // the same traffic with every other send / poll over HTTP/JSON (after seed C19-C)
+            Job::new("partlog", if q { 500 } else { 8_000 }).flavour("http").caches(&["off", "big"]),
         ],
         _ => return None,
     };
